@@ -95,7 +95,7 @@ struct CountMinFamily {
   }
   static void update(Env&, Obj& sk, uint64_t seed, unsigned n) {
     vf::Rng r(seed);
-    for (unsigned i = 0; i < n; ++i) { uint64_t v = r.below(50); uint64_t w = 1 + r.below(3); LibScope ls; if (i % 3) sk.update(v, w); else sk.update(std::to_string(v), w); }
+    for (unsigned i = 0; i < n; ++i) { uint64_t v = r.below(50); uint64_t w = 1 + r.below(3); std::string sv = std::to_string(v); LibScope ls; if (i % 3) sk.update(v, w); else sk.update(sv, w); }
   }
   static bool merge_ref(Env&, Obj& d, const Obj& s) { LibScope ls; d.merge(s); return true; }
   static bool merge_move(Env&, Obj&, Obj&&) { return false; }
@@ -120,7 +120,7 @@ struct CountMinFamily {
     os << ' '; show_bytes(os, bytes.data(), bytes.size());
   }
   static void canon(const Obj& sk, std::ostream& os) { observe(sk, os); }
-  static void query(Env&, const Obj& sk, uint64_t seed) { LibScope ls; (void)sk.get_estimate(std::to_string(seed % 50)); if (seed & 1) { ToStringScope ts; (void)sk.to_string(); } }
+  static void query(Env&, const Obj& sk, uint64_t seed) { std::string q = std::to_string(seed % 50); LibScope ls; (void)sk.get_estimate(q); if (seed & 1) { ToStringScope ts; (void)sk.to_string(); } }
 };
 
 // ---------------------------------------------------------------- VarOpt
@@ -376,7 +376,7 @@ struct BloomFamily {
   static void update(Env&, Obj& bf, uint64_t seed, unsigned n) {
     vf::Rng r(seed);
     if ((seed & 31) == 7) { LibScope ls; bf.invert(); return; }
-    for (unsigned i = 0; i < n; ++i) { uint64_t v = batch_value(r, seed); LibScope ls; if (i % 3) bf.update(v); else bf.update(std::to_string(v)); }
+    for (unsigned i = 0; i < n; ++i) { uint64_t v = batch_value(r, seed); std::string sv = std::to_string(v); LibScope ls; if (i % 3) bf.update(v); else bf.update(sv); }
   }
   static bool merge_ref(Env& e, Obj& d, const Obj& s) { LibScope ls; if (e.seed & 1) d.union_with(s); else d.intersect(s); return true; }
   static bool merge_move(Env&, Obj&, Obj&&) { return false; }
@@ -399,7 +399,7 @@ struct BloomFamily {
     os << ' '; show_bytes(os, bytes.data(), bytes.size());
   }
   static void canon(const Obj& bf, std::ostream& os) { observe(bf, os); }
-  static void query(Env&, const Obj& bf, uint64_t seed) { LibScope ls; (void)bf.query(std::to_string(seed)); if (seed & 1) { ToStringScope ts; (void)bf.to_string((seed & 2) != 0); } }
+  static void query(Env&, const Obj& bf, uint64_t seed) { std::string q = std::to_string(seed); LibScope ls; (void)bf.query(q); if (seed & 1) { ToStringScope ts; (void)bf.to_string((seed & 2) != 0); } }
 };
 
 // ---------------------------------------------------------------- density sketch
